@@ -462,8 +462,9 @@ class CatalogWriter(AbstractContextManager, HandlesDataChunk):
         if not self.cache_directory.is_dir():
             return False
         patch_prefix = PATCH_NAME_TEMPLATE.split("{")[0]
+        info_files = (PATCH_INFO_FILE, Path(PATCH_INFO_FILE).with_suffix(".tmp").name)
         return all(
-            path.name == PATCH_INFO_FILE
+            path.name in info_files
             or (path.is_dir() and path.name.startswith(patch_prefix))
             for path in self.cache_directory.iterdir()
         )
@@ -544,8 +545,13 @@ class CatalogWriter(AbstractContextManager, HandlesDataChunk):
         for patch_id in empty_patches:
             raise ValueError(f"patch with ID {patch_id} contains no data")
 
+        # the presence of the patch ID list marks the cache as complete, it must
+        # never exist with partial content: write to a temporary file and rename
         patch_ids = np.fromiter(self.writers.keys(), dtype=np.int16)
-        np.sort(patch_ids).tofile(self.cache_directory / PATCH_INFO_FILE)
+        info_path = self.cache_directory / PATCH_INFO_FILE
+        temp_path = info_path.with_suffix(".tmp")
+        np.sort(patch_ids).tofile(temp_path)
+        temp_path.replace(info_path)
 
 
 def write_patches_unthreaded(
